@@ -291,6 +291,12 @@ def check(rep, tier, seed):
                    extra_declass=re.compile(r"mpsc::(bounded::)?Sender<.*>::send$|Sender::send$|oneshot::channel$"))
     upd_rule = (r"(^|::)update_key$", c_upd.rule())
 
+    # ---- the key actor itself (holds the key in memory; one iteration of its message loop from an arbitrary state) ----
+    w_act = ctx.method("KeyKeeperSharedState", "start_new")
+    act_body = w_act + "::{closure#0}"
+    if act_body in ctx.idx.files:
+        A.unit("KeyKeeperSharedState actor loop", act_body, engine=ctx.engine(loop_bound=1, max_paths=8000, timeout=300, summaries=SUMMARIES))
+
     # ---- U8 KeyKeeper::loop_poll, key section (fetch / acquire / store / check / attest / publish), store helpers inlined ----
     import p_c08
     eng8, paths8 = p_c08.key_section(ctx, rep)
@@ -343,7 +349,7 @@ def check(rep, tier, seed):
         rep.add(Query("callers of key-carrying functions beyond three levels", "inconclusive", "%s" % pending[:5], 0, "mirsym"))
 
     # ---- completeness: every non-test function whose MIR mentions a Key-typed local is one of the analysed units ----
-    analysed = set(seen_units) | analysed_bodies | {p_sig, p_rrb, p_br, w_get + "::{closure#0}", w_acq + "::{closure#0}", w_att + "::{closure#0}"} | set(eng8.inlined)
+    analysed = set(seen_units) | analysed_bodies | {act_body, w_act, w_upd + "::{closure#0}", w_set + "::{closure#0}", w_set, w_upd} | {p_sig, p_rrb, p_br, w_get + "::{closure#0}", w_acq + "::{closure#0}", w_att + "::{closure#0}"} | set(eng8.inlined)
     key_users = []
     for p in ctx.idx.files:
         try:
@@ -354,7 +360,9 @@ def check(rep, tier, seed):
         if any(taint.is_key_type(t) or re.search(r"[<( ]key_keeper::key::Key[>,) ]|[<( ]Key[>,)]", t or "") for t in tys):
             key_users.append(p)
     missing = [p for p in key_users if p not in analysed and not any(p.startswith(a + "::{closure") or a.startswith(p + "::{closure") for a in analysed)
-               and not re.search(r"key_keeper_wrapper|key::.*::(clone|empty|deserialize|serialize|fmt)|_::<impl|KeyKeeper::loop_poll$|::tests::", p)]
+               and not re.search(r"key_keeper_wrapper.*::(get_current_key\w*|get_key|update_key|clear_key)($|::)|key::.*::(clone|empty|deserialize|serialize|fmt)|_::<impl|loop_poll$|::tests::", p)]
+    rep.add(Query("every function with a Key-typed local is one of the analysed units (%d such functions)" % len(key_users), "holds" if not missing else "inconclusive", "%s" % missing[:6], 0, "mirsym",
+                  key="C12.completeness"))
     rep.extra["key_typed_functions"] = len(key_users)
     rep.extra["key_typed_functions_not_analysed"] = missing[:20]
 
